@@ -4,6 +4,7 @@ from . import common as C
 from . import props as P
 from . import gen as G
 from .engine import Program, rclass, opname
+from . import legs as LG
 
 mon_generic = P.mon_no_panic
 
@@ -157,3 +158,104 @@ reg("C15",
     rule="programs over 4 hostile keys (path-like, '..', NUL, controls, case / normalisation variants, 4 KiB): writes, "
          "every read-only call, a copy, removals; the directories next to the cache and the cache itself are dumped "
          "before and after")
+
+
+# ---------------------------------------------------------------------------------------------
+# properties with system-call level legs
+# ---------------------------------------------------------------------------------------------
+
+def merge(*parts):
+    out = {"failures": [], "disagreements": [], "evaluations": 0, "distinct_nontrivial": 0, "samples": []}
+    for p in parts:
+        for k, v in p.items():
+            if k in ("failures", "disagreements", "samples"):
+                out[k] += v
+            elif k in ("evaluations", "distinct_nontrivial"):
+                out[k] += v
+            else:
+                out[k] = v
+    return out
+
+
+def gen_content_programs(seed, tier):
+    """Writes of every shape followed by a dump of the content area (judged by hashlib)."""
+    progs = P.gen_roundtrip_programs(G.Rng(seed + 3), N(tier, 60, 600), big=N(tier, 0.03, 0.08))
+    progs += P.gen_commit_programs(G.Rng(seed + 33), N(tier, 40, 400))
+    for p in progs:
+        p.ops.append("dump c0/content-v2")
+    return progs
+
+
+def mon_content_valid(rr):
+    out = []
+    for i, (o, l) in enumerate(zip(rr.prog.ops, rr.impl)):
+        if o.startswith("dump c0/content-v2") or o == "dump c0":
+            out += LG.content_valid_monitor(l, f"after op {i}")
+    for f in out:
+        f.idx = len(rr.prog.ops) - 1
+    return out
+
+
+reg("C03",
+    gen=gen_content_programs,
+    monitors=[mon_content_valid],
+    extra=lambda seed, tier, flavours: merge(
+        LG.leg_skeleton(P.gen_roundtrip_programs(G.Rng(seed + 31), N(tier, 10, 60)), flavours[0]),
+        LG.leg_kill_sweep(LG.kill_cases(G.Rng(seed + 32), N(tier, 4, 24)), flavours[0], max_points=N(tier, 14, 200))),
+    nontrivial=lambda rr: has(rr, ("dump",), ("ok",)),
+    rule="(a) API: writes of every shape (one-shot / streamed / declared size right and wrong / keyed / by address / both "
+         "flavours / sizes around 1 MiB), content area dumped and every file's digest recomputed with hashlib; "
+         "(b) skeleton: the real mutation-syscall sequence of every op equals the model's call trace; (c) kill sweep: the "
+         "real process is SIGKILLed on entry to its N-th mutating syscall for every N, a fresh process inspects the "
+         "directory; distinct = distinct (op, result-class) sequences / syscall skeletons / post-kill trees")
+
+reg("C04",
+    gen=lambda seed, tier: P.gen_bucket_programs(G.Rng(seed + 4), N(tier, 100, 2000)),
+    monitors=[P.mon_bucket],
+    extra=lambda seed, tier, flavours: LG.leg_kill_sweep(LG.kill_cases(G.Rng(seed + 41), N(tier, 6, 40)), flavours[0],
+                                                        max_points=N(tier, 16, 200)),
+    nontrivial=lambda rr: rr.prog.tags.get("damage", "").startswith(("last record cut", "record")),
+    rule="(a) torn appends: reference-encoded buckets with a record cut at every sampled byte length (incl. inside "
+         "multi-byte UTF-8), lookups in both flavours, a further append, lookups again; (b) kill sweep over keyed writes, "
+         "overwrites, index inserts with non-ASCII metadata and removals: SIGKILL at every mutating syscall, then a fresh "
+         "process checks old-or-new for the key, other keys intact, visible => readable, later write visible")
+
+reg("C13",
+    gen=lambda seed, tier: P.gen_roundtrip_programs(G.Rng(seed + 13), N(tier, 20, 100)),
+    monitors=[P.mon_roundtrip],
+    extra=lambda seed, tier, flavours: LG.leg_fault_injection(LG.fault_cases(G.Rng(seed + 13)), flavours[0], tier),
+    nontrivial=lambda rr: True,
+    rule="errno injection with strace: for write / write (async) / write_hash / read / metadata / copy / remove / list, "
+         "every syscall class x (first, middle, last occurrence in quick; every occurrence in thorough) x {EIO, ENOSPC "
+         "(+EACCES, EMFILE thorough)}; judged: error or truthful success, no panic/hang, content area valid, other entry "
+         "intact, retry without fault succeeds and reads back; distinct = (op, syscall, errno, result class)")
+
+reg("C07",
+    gen=lambda seed, tier: P.gen_history_programs(G.Rng(seed + 7), N(tier, 20, 100)),
+    monitors=[P.mon_history],
+    all_flavours=True,
+    extra=lambda seed, tier, flavours: merge(
+        LG.leg_concurrent(G.Rng(seed + 71), N(tier, 4, 40), flavours, procs=N(tier, 6, 12), ops_per_proc=N(tier, 60, 150)),
+        LG.leg_skeleton(gen_big_record_programs(seed, tier), "tokio" if "tokio" in flavours else flavours[0])),
+    nontrivial=lambda rr: True,
+    rule="(a) real concurrency: 6-12 processes (sync + async API, async-std and tokio binaries) on one cache: writers "
+         "of the same key, of different keys with equal content, removers, readers, listers; every read must be a "
+         "written value, every successful write must have a whole record, content valid; (b) single-write skeleton: an "
+         "index insert is exactly one write(2) on an O_APPEND descriptor, also for records of several MiB")
+
+
+def gen_big_record_programs(seed, tier):
+    """Index records of growing size (raw metadata up to several MiB): one append = one write(2)?"""
+    r = G.Rng(seed + 72)
+    progs = []
+    for n in ([100, 70000] if tier == "quick" else [100, 70000, 600000, 1100000]):
+        raw = r.randbytes(n)
+        for fl in "sa":
+            ops = [f"index_insert {fl} c0 x6b sri={G.hx(P.L.sri_of('sha256', b'x').encode())} time=1 size=1 meta=- raw={G.hx(raw)}"]
+            progs.append(Program(f"bigrec{n}{fl}", ops, tags={"variety": (n, fl)}))
+    return progs
+
+
+REGISTRY["C15"]["extra"] = lambda seed, tier, flavours: LG.leg_skeleton(
+    P.gen_confine_programs(G.Rng(seed + 151), N(tier, 6, 40)), flavours[0])
+REGISTRY["C15"]["rule"] += "; plus the strace leg: every mutating system call of every op (hostile keys) is compared with the model's call and any path outside the scratch cache directory is reported"
